@@ -7,6 +7,7 @@ HARNESS = os.path.join(VERIF, "harness")
 BUILD = os.path.join(VERIF, ".build")
 PHARNESS = os.path.join(BUILD, "harness-target", "debug", "pharness")
 PMODEL = os.path.join(LEAN, ".lake", "build", "bin", "pmodel")
+CVM = os.path.join(BUILD, "cvm", "drv")
 REPLAYS = os.path.join(VERIF, "replays")
 EVIDENCE = os.path.join(VERIF, "evidence")
 CORPUS = os.path.join(VERIF, "corpus")
@@ -70,6 +71,14 @@ def build_harness():
         if p.returncode != 0:
             raise Fail("harness does not build against /repo's working tree:\n" + p.stderr[-6000:])
         return time.time() - t
+
+
+def build_cvm():
+    """the C driver around the real libccp sources pinned by /repo/Cargo.lock"""
+    with Lock("cvm"):
+        p = sh(["bash", os.path.join(HARNESS, "cvm", "build.sh")], check=False, timeout=600)
+        if p.returncode != 0:
+            raise Fail("cvm driver does not build:\n" + (p.stdout + p.stderr)[-3000:])
 
 
 def build_lean(targets):
@@ -178,8 +187,25 @@ def run_lines(binary, lines, timeout=3600):
     return out
 
 
+def run_cvm(lines):
+    if not lines:
+        return {}
+    p = subprocess.run([CVM, "--isolate"], input="\n".join(lines) + "\n", capture_output=True, text=True, timeout=3600)
+    out = {}
+    for l in p.stdout.split("\n"):
+        if l:
+            i, _, r = l.partition(" ")
+            out[i] = r
+    return out
+
+
 def run_impl(lines):
-    return run_lines(PHARNESS, lines)
+    """the implementation side: real portus (pharness) and, for VM cases, real libccp (cvm)"""
+    vm = [l for l in lines if l.startswith("VM ")]
+    rest = [l for l in lines if not l.startswith("VM ")]
+    out = run_lines(PHARNESS, rest)
+    out.update(run_cvm(vm))
+    return out
 
 
 def run_model(lines):
@@ -187,10 +213,10 @@ def run_model(lines):
 
 
 class Case:
-    __slots__ = ("cmd", "args", "tags", "origin", "id")
+    __slots__ = ("cmd", "args", "tags", "origin", "id", "meta")
 
-    def __init__(self, cmd, args, tags=(), origin="gen"):
-        self.cmd, self.args, self.tags, self.origin, self.id = cmd, args, tuple(tags), origin, None
+    def __init__(self, cmd, args, tags=(), origin="gen", meta=None):
+        self.cmd, self.args, self.tags, self.origin, self.id, self.meta = cmd, args, tuple(tags), origin, None, meta
 
     def line(self):
         return "%s %s %s" % (self.cmd, self.id, self.args)
